@@ -75,7 +75,7 @@ impl BlsSerde for Bls12381G1Impl {
     fn deserialize_scalar<'de, D: Deserializer<'de>>(
         deserializer: D,
     ) -> Result<<Self::PublicKey as Group>::Scalar, D::Error> {
-        <Scalar as Deserialize<'de>>::deserialize(deserializer)
+        deserialize_scalar_checked(deserializer)
     }
 
     fn deserialize_scalar_share<'de, D: Deserializer<'de>>(
@@ -87,13 +87,13 @@ impl BlsSerde for Bls12381G1Impl {
     fn deserialize_signature<'de, D: Deserializer<'de>>(
         deserializer: D,
     ) -> Result<Self::Signature, D::Error> {
-        Self::Signature::deserialize(deserializer)
+        deserialize_point_checked(deserializer)
     }
 
     fn deserialize_public_key<'de, D: Deserializer<'de>>(
         deserializer: D,
     ) -> Result<Self::PublicKey, D::Error> {
-        Self::PublicKey::deserialize(deserializer)
+        deserialize_point_checked(deserializer)
     }
 
     fn deserialize_public_key_share<'de, D: Deserializer<'de>>(
